@@ -70,6 +70,7 @@ def case_a():
         "sec_ph": st.one_of(st.none(), st.none(), st.none(), st.sampled_from(PH)),
         "arg_defaults": st.booleans(),
         "mc_ns": st.sampled_from("ns"), "mc_ew": st.sampled_from("ew"),
+        "ocr": st.booleans(),
     })
 
 
@@ -196,6 +197,25 @@ def oracle_a(c):
             exp_trs = f"{exp_twp}{exp_rge}{exp_sec}"
         t1 = TRS.from_twprgesec(twp_arg, rge_arg, sec_arg, **kw)
         check_decomposition(t1, exp_twp, exp_rge, exp_sec, "TRS.from_twprgesec", fails)
+        if c.get("ocr"):
+            # digits are digits: switching the OCR scrub on must not change what well-formed components mean
+            t1o = TRS.from_twprgesec(twp_arg, rge_arg, sec_arg, ocr_scrub=True, **kw)
+            check_decomposition(t1o, exp_twp, exp_rge, exp_sec, "TRS.from_twprgesec(ocr_scrub=True)", fails)
+            t2o = Tract.from_twprgesec("NE/4", twp_arg, rge_arg, sec_arg, config="ocr_scrub", **kw)
+            check_decomposition(t2o, exp_twp, exp_rge, exp_sec, "Tract.from_twprgesec(config='ocr_scrub')", fails)
+            t3o = Tract("NE/4")
+            t3o.set_twprgesec(twp_arg, rge_arg, sec_arg, ocr_scrub=True, **kw)
+            check_decomposition(t3o, exp_twp, exp_rge, exp_sec, "Tract.set_twprgesec(ocr_scrub=True)", fails)
+        # an object that has been hashed and is then given another value must hash like that value
+        tm = TRS("1n1w01" if exp_trs != "1n1w01" else "2s2e02")
+        h0 = hash(tm)
+        tm.set_twprgesec(twp_arg, rge_arg, sec_arg, **kw)
+        tn = TRS("9s9e09")
+        hash(tn)
+        tn.trs = exp_trs
+        for label, obj in (("set_twprgesec", tm), (".trs =", tn)):
+            if obj.trs == exp_trs and (not (obj == TRS(exp_trs)) or hash(obj) != hash(TRS(exp_trs))):
+                fails.append(Failure("A:eq_hash_after_update", f"after {label} the TRS reads {obj.trs!r} but does not compare/hash equal to TRS({exp_trs!r})"))
         t2 = Tract.from_twprgesec("NE/4", twp_arg, rge_arg, sec_arg, **kw)
         check_decomposition(t2, exp_twp, exp_rge, exp_sec, "Tract.from_twprgesec", fails)
         t3 = Tract("NE/4")
